@@ -56,11 +56,20 @@ func main() {
 		w := bufio.NewWriterSize(f, 1<<20)
 		n := 0
 		seen := map[string]bool{}
+		// the case being executed is kept in a side file, so that the driver of the check can name
+		// the input on which the process died (fatal runtime error, out of memory, killed)
+		var cur *os.File
+		if p := os.Getenv("VERIF_CUR_CASE"); p != "" {
+			cur, _ = os.Create(p)
+		}
 		one := func(c string) {
 			if seen[c] {
 				return
 			}
 			seen[c] = true
+			if cur != nil {
+				cur.WriteAt([]byte(fmt.Sprintf("%08d %s\n", len(c), c)), 0)
+			}
 			fmt.Fprintf(w, "%s => %s\n", c, runCase(c))
 			n++
 		}
